@@ -749,16 +749,17 @@ def build_drive_calls(r, D, info, m, kinds):
     # the caller's request
     rq = D.new(m["req_fqn"].lstrip("."))
     rq.parent = "projects/" + r.choice(["p1", "my-proj", "x_9"])
-    if r.random() < 0.7:
+    has = rq.DESCRIPTOR.fields_by_name
+    if "filter" in has and r.random() < 0.7:
         rq.filter = r.choice(["a=b", "x", "name:\"q\""])
-    if r.random() < 0.5:
+    if "order" in has and r.random() < 0.5:
         rq.order = r.randint(1, 9)
-    if r.random() < 0.5:
+    if "tags" in has and r.random() < 0.5:
         rq.tags.extend(["t", "u"][: r.randint(1, 2)])
-    if r.random() < 0.4:
+    if "options" in has and r.random() < 0.4:
         rq.options.deep = True
         rq.options.hint = "h"
-    if r.random() < 0.3:
+    if "view" in has and r.random() < 0.3:
         rq.view = 2
     for sf in ("page_size", "max_results"):
         fd = rq.DESCRIPTOR.fields_by_name.get(sf)
@@ -793,7 +794,7 @@ def build_drive_calls(r, D, info, m, kinds):
             else:
                 spec["grpc_script"] = {m["path"]: [{"messages": [dyn.Dyn.b64(x)]} for x in msgs]}
             out.append({"spec": spec, "hist": hist, "kind": kind, "mode": mode, "item": item, "attr_names": attr_names,
-                        "sent_token": rq.page_token, "sent_filter": rq.filter, "md": md, "timeout": timeout, "m": m})
+                        "sent_token": rq.page_token, "sent_filter": rq.filter if "filter" in has else "", "md": md, "timeout": timeout, "m": m})
     return out
 
 
